@@ -16,7 +16,10 @@ C02_CLASSES = {1: "transaction-increased-a-currency-total", 2: "BeginBlock-incre
 C03_CLASSES = {6: "holdings-decreased-across-a-block-without-authority", 7: "holdings-decreased-in-a-step-without-authority"}
 T_NEGFUND = "C02.proposal_fund_negative"
 T_STALE = "C02.finalize_stale_fund_records"
-C02_KNOWN = {13: T_STALE, 14: T_STALE, 15: T_NEGFUND}
+T_NEGWD2 = "C02.withdraw_funds_negative"
+T_NEGWD3 = "C03.withdraw_funds_negative"
+C02_KNOWN = {13: T_STALE, 14: T_STALE, 15: T_NEGFUND, 25: T_NEGWD2}
+C03_KNOWN = {16: T_NEGWD3, 17: T_NEGWD3}
 CORR = {1: "model-ledger-differs", 2: "model-refuses-a-successful-step", 3: "failed-transaction-changed-the-ledger"}
 
 
@@ -39,7 +42,7 @@ def evaluate(ctx, vh, args, tag="c02"):
         b = common.parse_print(cout, "CORR")
         corr += [tuple(b[i:i + 3]) for i in range(0, len(b), 3)]
         t = common.parse_print(cout, "TR")
-        tr += [tuple(t[i:i + 2]) for i in range(0, len(t), 2)]
+        tr += [tuple(t[i:i + 3]) for i in range(0, len(t), 3)]
     return rep, cases, sorted(mon), sorted(corr), tr
 
 
@@ -63,7 +66,7 @@ def payload(case, si, cl, a, b, names):
          "observed": describe_step(case, si), "how": "./check replay <this file>"}
     if cl in (1, 2, 3, 4, 13, 14):
         d["currency"], d["increase"] = case["curs"][a] if a < len(case["curs"]) else a, str(b)
-    elif cl in (5, 15):
+    elif cl in (5, 15, 25):
         d["owner"], d["bucket"] = case["owners"][a], BUCKETS[b]
     else:
         d["owner"], d["currency"] = case["owners"][a], case["curs"][b] if b < len(case["curs"]) else b
@@ -152,8 +155,9 @@ def run(ctx, props, mine, known, names, what):
         "modelled_steps_agreeing": sum(1 for c in corr if c[2] == 0),
         "failed_for_a_non_ledger_reason": sum(1 for c in corr if c[2] == 4),
         "monitor_hits_of_this_property": len(own),
-        "monitor_hits_by_class": {names.get(k, C02_KNOWN.get(k, str(k))) + "(%d)" % k: sum(1 for m in own if m[2] == k) for k in sorted(set(m[2] for m in own))},
-        "cases_in_trigger_region": {T_NEGFUND: sum(1 for t in tr if t[0]), T_STALE: sum(1 for t in tr if t[1])},
+        "monitor_hits_by_class": {names.get(k, C02_KNOWN.get(k, C03_KNOWN.get(k, str(k)))) + "(%d)" % k: sum(1 for m in own if m[2] == k) for k in sorted(set(m[2] for m in own))},
+        "cases_in_trigger_region": {T_NEGFUND: sum(1 for t in tr if t[0]), T_STALE: sum(1 for t in tr if t[1]),
+                                    "withdraw_funds_negative": sum(1 for t in tr if t[2])},
         "finding_replays_and_corpus_cases_run": nextra,
         "samples": rep["samples"],
         "explanation": what,
@@ -178,7 +182,7 @@ def replay(ctx, rp, mine, known, names):
     for s in cases[0]["steps"]:
         if s["kind"] == 1:
             print("  h%d %-34s %-4s %s" % (s["h"], s.get("type"), "ok" if s["ok"] else "FAIL", s.get("descr") or ""))
-    print("monitor hits (case, step, class, detail, detail):", [(m, names.get(m[2], C02_KNOWN.get(m[2]))) for m in mon])
+    print("monitor hits (case, step, class, detail, detail):", [(m, names.get(m[2], C02_KNOWN.get(m[2], C03_KNOWN.get(m[2])))) for m in mon])
     print("model mismatches (case, step, kind):", [c for c in corr if c[2] in CORR])
-    print("triggers (negative proposal fund, two finalised in one block):", tr)
+    print("triggers (negative proposal fund, two finalised in one block, negative withdraw funds):", tr)
     judge(ctx, cases, mon, corr, mine, known, names)
